@@ -455,7 +455,12 @@ func specialScenarios(start int, seed uint64, thorough bool) []*Scenario {
 		add(sc)
 	}
 	// S4: SETTINGS applied+acked between awaitFlowControl and the DATA write.
-	for _, variant := range []string{"maxframe", "initwin0"} {
+	reps := 2
+	if thorough {
+		reps = 6
+	}
+	for rep := 0; rep < 2*reps; rep++ {
+		variant := []string{"maxframe", "initwin0"}[rep%2]
 		sc := defaultScenario(0, seed, "S4-race-"+variant)
 		sc.C2PBuf = 4096
 		sc.ReadDelayUs = 300
@@ -463,9 +468,12 @@ func specialScenarios(start int, seed uint64, thorough bool) []*Scenario {
 		sc.LowStream, sc.LowConn = 1, 1
 		sc.Incs = []uint32{65535, 16385}
 		sc.PeerSettings = [][2]uint32{{3, 100}, {4, 1 << 20}, {5, 32768}}
+		// a small request first: the uploads start once the peer's SETTINGS (MAX_FRAME_SIZE
+		// 32768) are in force, so that their scratch buffers are 32 KiB
 		sc.Reqs = []ReqSpec{
-			{Upload: 300000, RespSize: 1, RespChunk: 16384, App: appReadAll},
-			{Upload: 300000, RespSize: 1, RespChunk: 16384, App: appReadAll},
+			{Upload: -1, RespSize: 1, RespChunk: 16384, App: appReadAll},
+			{Upload: 300000, RespSize: 1, RespChunk: 16384, App: appReadAll, StartDelayUs: 40000},
+			{Upload: 300000, RespSize: 1, RespChunk: 16384, App: appReadAll, StartDelayUs: 40000},
 		}
 		for i := 0; i < 7; i++ {
 			a := Action{TrigUp: 40000 + i*70000, TrigTicks: 400, Kind: "settings"}
@@ -485,6 +493,10 @@ func specialScenarios(start int, seed uint64, thorough bool) []*Scenario {
 // BuildScenarios derives all scenario scripts for a run (before anything runs).
 func BuildScenarios(seed uint64, rng *hk.Rand, nRandom int, thorough bool) []*Scenario {
 	out := specialScenarios(0, seed, thorough)
+	// hk.NewRand(seed) is a splitmix64 whose state is linear in the seed: the stream of
+	// seed n+1 is the stream of seed n shifted by one draw. Re-seed from a mixed output
+	// so that different seeds give unrelated scenario sets.
+	rng = hk.NewRand(rng.U64() ^ 0xC06C06C06)
 	for i := 0; i < nRandom; i++ {
 		out = append(out, randomScenario(len(out), seed, rng.Fork()))
 	}
